@@ -196,7 +196,7 @@ def monHandle (m : MonState) (args : List String) : MonState × String :=
     let h := m.hist.reverse
     let g := pgGrammar h
     let rec_ := (c02Verdicts h).filter (· ≠ .ok)
-    (m, s!"grammar={b01 g} c03mono={b01 (c03Monotone h)} c03src={b01 (c03Sourced h)} c03runmax={b01 (c03RunMax h)} c03restart={b01 (c03Restarts h)} c07stamp={b01 (!g || c07Stamp h)} c07uniq={b01 (c07KeysUnique h)} c07onecommit={b01 (!g || c07OneCommit h)} c07framing={b01 (c07Framing h)} c18={b01 (c18Replies h)} c02={joinList (rec_.map showVerdict)}")
+    (m, s!"grammar={b01 g} c03mono={b01 (c03Monotone h)} c03src={b01 (c03Sourced h)} c03runmax={b01 (c03RunMax h)} c03restart={b01 (c03Restarts h)} c07stamp={b01 (!g || c07Stamp h)} c07uniq={b01 (c07KeysUnique h)} c07onecommit={b01 (!g || (if m.v = .fixedC then c07OneCommitFull h else c07OneCommit h))} c07framing={b01 (c07Framing h)} c18={b01 (c18Replies h)} c02={joinList (rec_.map showVerdict)}")
   | _ => (m, "bad-op")
 
 end PgBifrost.Driver.Client
